@@ -639,6 +639,14 @@ def subst_index(val, pattern, actual):
 
 def term_getitem(it, base, idx, env, node):
     f = fname(base)
+    # (a < B)[i] for an element-wise comparison of arrays is a < B[i]
+    if f in ("lt", "ge", "eq", "ne", "and_", "or_", "not_") and isinstance(idx, sp.Basic) and not isinstance(idx, sp.Tuple) \
+            and fname(idx) != "slc" and (isinstance(idx, sp.Symbol) or idx.is_Integer) and not T.is_str_symbol(idx):
+        def elem(a_):
+            if a_.is_number or is_scalar_term(a_):
+                return a_
+            return element_of(it, a_, idx)
+        return op(f, *[elem(a_) for a_ in base.args])
     if is_term(idx) if False else isinstance(idx, sp.Basic):
         idx = canon_index(idx)
     # X.sizes["dim"]: the length of the coordinate that names the dimension (the one coordinate of that name X is built from)
